@@ -93,6 +93,14 @@ func (ex *Exec) builtin(st *State, name string, args []Val, in *ssa.Call) []Outc
 			return ret1(st, Int{smt.App("slen", v.T)})
 		case Map:
 			outside("len of map")
+		case Opaque:
+			// an unmodelled slice (e.g. a slice of structs filled by a decoder): its length is
+			// an arbitrary non-negative number, the same for the same value
+			if _, isSl := v.Typ.Underlying().(*types.Slice); isSl && v.ID != "" {
+				f := ex.Ctx.Declare("opaquelen", []string{"Ref"}, "Int")
+				st.Assume(smt.Ge(smt.App(f, v.ID), "0"))
+				return ret1(st, Int{smt.App(f, v.ID)})
+			}
 		}
 	case "cap":
 		outside("cap is not modelled")
@@ -357,6 +365,9 @@ func (ex *Exec) applyContract(st *State, fn *ssa.Function, fc *contract.Func, ar
 		enss = append(enss, cs.Ensures...)
 	}
 	for _, e := range enss {
+		if strings.Contains(e.Text, "final(") {
+			continue // about the callee's own locals: of no use to a caller
+		}
 		st.Assume(ex.EvalBool(post, e))
 	}
 	return []Outcome{{St: st, Ret: rets}}
@@ -803,6 +814,14 @@ func (ex *Exec) loopScope(st *State, b *ssa.BasicBlock, ord int) *Scope {
 	}
 	if ex.entryOld != nil {
 		sc.Old = ex.entryOld
+		if fr.Parent == nil && len(ex.entryArgs) > 0 {
+			sc.EntryVars = map[string]Val{}
+			for i, p := range fr.Fn.Params {
+				if i < len(ex.entryArgs) {
+					sc.EntryVars[p.Name()] = ex.entryArgs[i]
+				}
+			}
+		}
 	}
 	return sc
 }
@@ -848,7 +867,10 @@ func (ex *Exec) enterLoop(st *State, b *ssa.BasicBlock, prev *ssa.BasicBlock, or
 		spec.Fr.Loops[b] = &loopRec{Spec: true, Ordinal: ord}
 		ex.mute++
 		savedPaths := ex.paths
-		outs := ex.execFrom(spec, b, ex.firstNonPhi(b))
+		// the pass mutates its state in place up to the first branch (a condition with an
+		// effect, like scanner.Scan()): compare the outcomes with a snapshot
+		run := spec.Clone()
+		outs := ex.execFrom(run, b, ex.firstNonPhi(b))
 		ex.mute--
 		ex.paths = savedPaths
 		grew := false
